@@ -19,7 +19,7 @@ Parts:
   decoder-history  every (message, fault) x an earlier operation on the SAME decoder object (a decode that ignores value
              expectations, a metadata-only decode, another edition, a continue-on-error scan, a filtered scan) x 4 modes:
              the scan must deliver what a fresh decoder delivers.
-  cli        `pybufrkit decode -m [--continue-on-error]` on damaged files: an "Error:" line, no traceback.
+  cli        `pybufrkit decode -m [--continue-on-error]` on damaged files: a report on stderr, no traceback.
 Oracle: the harness knows which messages were damaged and where.
 """
 import contextlib
@@ -478,11 +478,12 @@ def run_cli_part(_):
                     argv = ['decode', '-m'] + (['--continue-on-error'] if cont else []) + [fn]
                     out, err, exc, code = run_cli(argv)
                     case = {'message': mi, 'fault': lab, 'cont': cont}
-                    p.outcome((cls, cont, exc is None, 'Error:' in err))
+                    reported = bool(err.strip()) and 'Traceback' not in err
+                    p.outcome((cls, cont, exc is None, reported))
                     if exc is not None:
                         p.violation('cli-traceback:%s|%s' % (type(exc).__name__, cls), case,
                                     'decode -m on a file with a %s fault ended with %r' % (lab, exc))
-                    elif 'Error:' not in err:
+                    elif not reported:      # some report on stderr, whatever its wording, and no traceback
                         p.violation('cli-no-error-line|%s' % cls, case, 'stderr: %r' % err[-200:])
     finally:
         if os.path.exists(fn):
